@@ -169,6 +169,61 @@ func init() {
 		} else {
 			e.Unknown("Service.listen")
 		}
+		// --- service.listen: the error handler decides whether Serve goes on after a connection
+		// nobody matched (ErrNotMatched → handleErr → errorHandler): every return of the handler
+		// literal must be `true`; without a HandleError call the default of listener.New applies
+		var handlerReturns []string
+		handlerSeen := false
+		collectReturns := func(n ast.Node) {
+			ast.Inspect(n, func(x ast.Node) bool {
+				if r, ok := x.(*ast.ReturnStmt); ok {
+					if len(r.Results) == 1 {
+						handlerReturns = append(handlerReturns, Src(r.Results[0]))
+					} else {
+						handlerReturns = append(handlerReturns, "?")
+					}
+				}
+				return true
+			})
+		}
+		if fd := FuncDecl(sv, "Service", "listen"); fd != nil && fd.Body != nil {
+			ast.Inspect(fd.Body, func(x ast.Node) bool {
+				call, ok := x.(*ast.CallExpr)
+				if !ok || Src(call.Fun) != "l.HandleError" || len(call.Args) != 1 {
+					return true
+				}
+				handlerSeen = true
+				arg := call.Args[0]
+				if conv, ok := arg.(*ast.CallExpr); ok && len(conv.Args) == 1 { // listener.ErrorHandler(func…)
+					arg = conv.Args[0]
+				}
+				if fl, ok := arg.(*ast.FuncLit); ok {
+					collectReturns(fl.Body)
+				} else {
+					e.Unknown("Service.listen HandleError argument " + Src(arg))
+				}
+				return false
+			})
+		}
+		if !handlerSeen {
+			// default handler in listener.New: errorHandler: func(_ error) bool { return true }
+			if fd := FuncDecl(ls, "", "New"); fd != nil && fd.Body != nil {
+				ast.Inspect(fd.Body, func(x ast.Node) bool {
+					if kv, ok := x.(*ast.KeyValueExpr); ok && Src(kv.Key) == "errorHandler" {
+						if fl, ok := kv.Value.(*ast.FuncLit); ok {
+							collectReturns(fl.Body)
+						}
+						return false
+					}
+					return true
+				})
+			}
+			if len(handlerReturns) == 0 {
+				e.Unknown("listener.New default errorHandler")
+			}
+		}
+		e.P("/-- service/service.go `listen`: what the error handler registered with `l.HandleError` (or, without one, the default of `listener.New`) returns — `true` everywhere means Serve keeps accepting after a connection nobody matched -/")
+		e.P("def listenErrorHandlerReturns : List String := %s", LeanStrList(handlerReturns))
 		e.P("/-- service/service.go `listen`: the `l.ServeAsync(matcher, serve)` registrations in source order -/")
 		e.P("def muxRegistrations : List (String × String) := [%s]", strings.Join(order, ", "))
 		e.P("/-- `l.SetReadTimeout(timeout)` is called before the registrations, with `timeout :=` this expression -/")
